@@ -279,7 +279,7 @@ def run_check(ctx, *, design, edge_cfgs, negs, invariants, corpus, max_paths_qui
     for cfg in cfgs:
         edges = cfg in edge_cfgs
         keep = os.path.join(ctx.workdir, cfg[:-4] + ".out") if edges else None
-        res = ctx.model_check(MOD, cfg, workers=1 if edges else 8, keep=keep, timeout=3000, xmx="10g")
+        res = ctx.model_check(MOD, cfg, workers=1 if edges else 14, keep=keep, timeout=3600, xmx="24g")
         vlib.require_ok(res, cfg)
         ctx.add_tlc(cfg, res, "exhaustive, design variants" + (", edge dump" if edges else ""))
         if edges:
